@@ -51,7 +51,8 @@ def gen(tier, seed):
 
 
 def overlap_cases(tier):
-    return [Case("o%d%s" % (i, "a" if w else ""), ["run %d %d%s" % (pg + (w,))], {"keep_prefix": 0}) for w in ("", " after") for i, pg in enumerate([(300, 60), (200, 100), (0, 0), (150, 20)] + ([] if tier == "quick" else [(400, 200), (100, 50), (250, 10), (50, 0)]))]
+    # (a connection_timeout is about the handshake: a call that waits longer than it for its reply is still answered)
+    return [Case("q%d" % i, [o], {"keep_prefix": 0}) for i, o in enumerate(["run 0 1200 timeout=300"] + ([] if tier == "quick" else ["run 0 2500 timeout=1000", "run 100 1500 after timeout=200"]))] + [Case("o%d%s" % (i, "a" if w else ""), ["run %d %d%s" % (pg + (w,))], {"keep_prefix": 0}) for w in ("", " after") for i, pg in enumerate([(300, 60), (200, 100), (0, 0), (150, 20)] + ([] if tier == "quick" else [(400, 200), (100, 50), (250, 10), (50, 0)]))]
 
 
 def suites(tier, seed):
@@ -61,7 +62,7 @@ def suites(tier, seed):
                   monitor=lambda c, il, sl: None if ([l for l in il if l and not l.startswith("#")] == ["call1 ok q-1", "call2 ok q-2", "broker-saw-declares 2"]) else (
                       "two calls overlapping on two channels (the second request arrives while the pass that took the first is finishing; the broker answers when it has both, the later one first): %s" % [l for l in il if not l.startswith("#")], "c04-overlap"),
                   nontrivial=lambda c, il: True, compare=False, shards=4, timeout=120, shrink=False,
-                  rule="real connection + I/O thread over the edge-triggered mock transport: call 1's request is taken in one pass of the I/O loop, whose final re-registration of the socket is held for 150-300 ms while call 2's request arrives, so the next poll batch is [channel 2, socket writable] (stall before the re-registration takes effect) or [socket writable, channel 2] (stall right after it - the order a real socket gives); the broker answers only when it has both requests, channel 2 first: both calls return their own reply"),
+                  rule="real connection + I/O thread over the edge-triggered mock transport: call 1's request is taken in one pass of the I/O loop, whose final re-registration of the socket is held for 150-300 ms while call 2's request arrives, so the next poll batch is [channel 2, socket writable] (stall before the re-registration takes effect) or [socket writable, channel 2] (stall right after it - the order a real socket gives); the broker answers only when it has both requests, channel 2 first: both calls return their own reply; also with a connection_timeout (300 ms) shorter than the time a call waits for its reply (1.2 s of silence, heartbeats off)"),
             Suite("highest-channel-ids", "machine", lambda: [c for c in __import__("props.c10", fromlist=["x"]).gen_loop(tier, seed) if c.cid.startswith("hi")], monitor=monitor, nontrivial=lambda c, il: True, canon=mg.canon_nondet,
                   rule="calls on channels 65534 and 65535 (channel_max 65535) get their replies like on any other channel"),
             Suite("id-lifecycles", "machine", lambda: mg.id_lifecycle_cases(Rng(seed + 5), 2, 5) + mg.id_lifecycle_cases(Rng(seed + 4), 2, 6, stride=23 if tier == "quick" else 2, offset=seed, prefix="k") + mg.id_lifecycle_cases(Rng(seed + 6), 3, 5 if tier == "quick" else 6, stride=19 if tier == "quick" else 29, offset=seed, prefix="j"),
